@@ -129,6 +129,14 @@ type blockError struct {
 func (e *blockError) Error() string { return e.err.Error() }
 func (e *blockError) Unwrap() error { return e.err }
 
+// elsewhereError is the failure of a template function that was written in
+// another template than the one that called it: statements of its body say
+// nothing about a line here.
+type elsewhereError struct{ err error }
+
+func (e *elsewhereError) Error() string { return e.err.Error() }
+func (e *elsewhereError) Unwrap() error { return e.err }
+
 // lineError is the error of an execution: what failed, and on which line of
 // the executed template.
 type lineError struct {
@@ -160,7 +168,7 @@ func blockErrorOf(err error, exec *execution) (found *blockError) {
 			if e.exec == exec {
 				return e
 			}
-		case *lineError:
+		case *lineError, *elsewhereError:
 			return nil
 		}
 		err = errors.Unwrap(err)
